@@ -12,6 +12,8 @@ import TgModel.Props.C06RefStable
 import TgModel.Props.C13
 import TgModel.Props.C19
 import TgModel.Lemmas.IdeSemGoto
+import TgModel.Lemmas.IdeSemLive
+import TgModel.Lemmas.IdeSemVisits
 
 namespace Tg.C05
 open Tg Tg.Ide Tg.Bodied
@@ -680,10 +682,11 @@ open Tg.SymbolMap (Op Loc run refsOf)
 structure WsGood (ws : Workspace) : Prop where
   ready : C03.Ready ws
   ids : ∀ g, IdsNE (ws.tree g)
+  plain : IdsPlain ws
 
 theorem built_wsGood {vfs : List (String × String)} {rootPath : String} {includeDir : Option String}
     {ws : Workspace} (hb : buildWorkspace vfs rootPath includeDir = .ok ws) : WsGood ws :=
-  ⟨C03.built_ready hb, fun g => (Index.built_wsOK (C03.built_ready hb).wf hb g).2⟩
+  ⟨C03.built_ready hb, fun g => (Index.built_wsOK (C03.built_ready hb).wf hb g).2, Index.built_idsPlain hb⟩
 
 theorem analysis_goto (ws : Workspace) (res : Index.IndexResult) (hr : Index.index ws = .ok res) (file p : Nat) :
     gotoDefinitionExec (Analysis.new ws) file p =
@@ -719,7 +722,7 @@ theorem logged_reference_answers {ws : Workspace} (hw : WsGood ws) {res : Index.
   have hready := hw.ready
   have hv := Tg.C06.index_refsValid hready hr
   have hs := Tg.C06.index_refStable_of hready hw.ids hr
-  have hd := Tg.C06.index_disjointLocs hready hr
+  have hd := Tg.C06.index_disjointLocs hready hw.plain hr
   obtain ⟨hl, Sy, hSy, hmem⟩ := Tg.SymbolMap.reference_lookup _ hv hs hd pre post gid loc hops p h1 h2
   have hrefs := Tg.SymbolMap.run_refs_eq _ hv gid Sy hSy
   have hlog := index_logOK ws res hr
@@ -997,7 +1000,7 @@ theorem declaration_references_exact_partial {ws : Workspace} (hw : WsGood ws)
     gotoDefinitionExec (Analysis.new ws) d.file p = .ok (some d) := by
   have hready := hw.ready
   have hv := Tg.C06.index_refsValid hready hr
-  have hd := Tg.C06.index_disjointLocs hready hr
+  have hd := Tg.C06.index_disjointLocs hready hw.plain hr
   have hne : d.isEmpty = false := by
     simp only [Tg.SymbolMap.Loc.isEmpty, decide_eq_false_iff_not, Nat.not_le]; omega
   obtain ⟨Sy, hSy, _, hdef⟩ := Tg.SymbolMap.define_sym_final pre post name d
@@ -1115,17 +1118,22 @@ theorem g_index : ∃ r, Index.index (wsOfTree gTree) = .ok r ∧ r.symbolMap.op
   | ok r => rw [hr] at hk; exact ⟨r, rfl, opsBeq_eq hk⟩
 
 theorem ex_wsGood : WsGood (wsOfTree gTree) := by
-  refine ⟨⟨(wsOfTree_wf gTree_shape).1, (wsOfTree_wf gTree_shape).2.1⟩, ?_⟩
   have hid : gTree.idOK := by
     unfold gTree
     split
     · rename_i r hr; exact parse_idOK hr
     · simp
-  intro g
-  unfold Workspace.tree
-  cases g with
-  | zero => simpa [wsOfTree] using idsNE_ofTree hid
-  | succ g => simpa [wsOfTree] using defaultTree_idsNE
+  refine ⟨⟨(wsOfTree_wf gTree_shape).1, (wsOfTree_wf gTree_shape).2.1⟩, ?_, ?_⟩
+  · intro g
+    unfold Workspace.tree
+    cases g with
+    | zero => simpa [wsOfTree] using idsNE_ofTree hid
+    | succ g => simpa [wsOfTree] using defaultTree_idsNE
+  · intro g
+    unfold Workspace.tree
+    cases g with
+    | zero => simpa [wsOfTree] using idsPlain_ofTree hid
+    | succ g => simpa [wsOfTree] using defaultTree_idsPlain
 
 /-- `logged_reference_answers` on the real run: from the `f` of `let f` (offsets 23..24) go-to-definition
 answers the declaration `int f` at 12..13 and find-references answers `[23..24]` -/
@@ -1206,5 +1214,203 @@ example : ∃ ws res, buildWorkspace [("/w/a.td", "include \"b.td\"\nclass A;"),
 
 
 end capstone
+
+section live
+open Tg.Ide.Handlers
+open Tg.SymbolMap (Op Loc run refsOf)
+
+/-! ## (6) live symbols: the capstone without `hlive` -/
+
+/-- whatever `resolve_id` answers in a live state is a live symbol (for a non-empty name: an
+unregistered defset id would be filed under the empty name) -/
+theorem resolveName_live {c : IndexCtx} (h : LiveInv c) (name : String) (hne : name ≠ "") (S : SymbolId)
+    (hres : Tg.C13.resolveName c name = some S) :
+    c.symbolMap.gidToSym[c.symbolMap.gidOf S]? = some S := by
+  apply h.live
+  unfold Tg.C13.resolveName at hres
+  cases hfl : c.scopes.findLocal c.symbolMap name with
+  | some s =>
+    rw [hfl] at hres
+    cases hres
+    exact findLocal_valid h name _ hfl
+  | none =>
+    rw [hfl] at hres
+    simp only at hres
+    cases hfd : c.symbolMap.findDef name with
+    | some d =>
+      rw [hfd] at hres
+      cases hres
+      exact h.cont.defs name d hfd
+    | none =>
+      rw [hfd] at hres
+      simp only at hres
+      cases hds : c.symbolMap.findDefset name with
+      | none => rw [hds] at hres; cases hres
+      | some d =>
+        rw [hds] at hres
+        cases hres
+        rcases h.cont.dss name d hds with h1 | h1
+        · exact h1
+        · exact absurd h1 hne
+
+/-- **`use_goes_to_declaration`, with the state invariant instead of `hlive`**: `LiveInv c` holds of
+every state the indexer reaches (`LiveInv.new`, `mkRec_live`) -/
+theorem use_goes_to_declaration_live {ws : Workspace} (hw : WsGood ws) {res : Index.IndexResult}
+    (hr : Index.index ws = .ok res) (id : PTree) (c c' : IndexCtx) (t : Option Ty) (f : Nat) (rest : List Nat)
+    (hft : c.fileTrace = f :: rest) (name : String) (loc : FileRange) (hid : identOf f id = some (name, loc))
+    (hne : name ≠ "") (S : SymbolId) (hres : Tg.C13.resolveName c name = some S) (hlive : LiveInv c)
+    (hrun : (Index.indexIdentifierValue id).run c = .ok (t, c'))
+    (hlater : SmLater c'.symbolMap res.symbolMap)
+    (p : Nat) (h1 : loc.start ≤ p) (h2 : p < loc.stop) :
+    gotoDefinitionExec (Analysis.new ws) f p = .ok (some (symbolDefineLoc res.symbolMap S).toLoc) ∧
+    referencesExec (Analysis.new ws) f p = .ok (some (refsOf res.symbolMap.ops.toList (c.symbolMap.gidOf S))) ∧
+    loc.toLoc ∈ refsOf res.symbolMap.ops.toList (c.symbolMap.gidOf S) :=
+  use_goes_to_declaration hw hr id c c' t f rest hft name loc hid S hres
+    (resolveName_live hlive name hne S hres) hrun hlater p h1 h2
+
+
+/-- **`use_goes_to_declaration_root`**: the indexer visits the identifier `id` - the initialiser of a
+field definition `T x = id;` (`T` primitive) in the body of a `class` / `def` statement `s` of the root
+file (`ClassUse` / `DefUse`: static conditions on the tree) - in a state `c` that is live and has the
+root as current file, the run continues from the state `c'` after the visit to the final result, and
+for the symbol `S` that `resolve_id` answers *in `c`*: on the final analysis, from every offset of the
+identifier go-to-definition lands exactly on the declaring identifier of `S`, and find-references
+answers the uses of `S`, this one among them.  No hypothesis on intermediate states is left. -/
+theorem use_goes_to_declaration_root {ws : Workspace} (hw : WsGood ws) {res : Index.IndexResult}
+    (hr : Index.index ws = .ok res) (sf sl : PTree) (hsf : Ast.sourceFileCast (ws.tree ws.root) = some sf)
+    (hsl : Ast.sourceFileStatementList sf = some sl) (spre : List PTree) (s : PTree) (spost : List PTree)
+    (hsplit : Ast.statementListStatements sl = spre ++ s :: spost) (id : PTree)
+    (hu : ClassUse s id ∨ DefUse s id) (name : String) (se : Nat × Nat)
+    (hiv : Ast.identifierValue id = some name) (hir : Ast.identifierRange id = some se) (hne : name ≠ "") :
+    ∃ c t c', c.fileTrace = [ws.root] ∧ LiveInv c ∧
+      (Index.indexIdentifierValue id).run c = .ok (t, c') ∧ SmLater c'.symbolMap res.symbolMap ∧
+      ∀ S, Tg.C13.resolveName c name = some S → ∀ p, se.1 ≤ p → p < se.2 →
+        gotoDefinitionExec (Analysis.new ws) ws.root p = .ok (some (symbolDefineLoc res.symbolMap S).toLoc) ∧
+        referencesExec (Analysis.new ws) ws.root p =
+          .ok (some (refsOf res.symbolMap.ops.toList (c.symbolMap.gidOf S))) ∧
+        (⟨ws.root, se.1, se.2⟩ : Loc) ∈ refsOf res.symbolMap.ops.toList (c.symbolMap.gidOf S) := by
+  have hr0 := hr
+  unfold Index.index at hr
+  rw [hsf] at hr
+  simp only at hr
+  obtain ⟨j, hj⟩ : ∃ j, ws.depthBound = j + 2 := ⟨ws.depthBound - 2, by have := depthBound_ge ws; omega⟩
+  rw [hj] at hr
+  split at hr
+  · cases hr
+  · rename_i u ctx hrun
+    cases hr
+    have hrun' : (Index.indexStatementList (Index.mkRec (j + 1)) sl).run (IndexCtx.new ws) = .ok (u, ctx) := by
+      have : Index.indexSourceFile (Index.mkRec (j + 2)) sf = Index.indexStatementList (Index.mkRec (j + 1)) sl := by
+        unfold Index.indexSourceFile
+        rw [hsl]
+        rfl
+      rw [this] at hrun
+      exact hrun
+    obtain ⟨c, t, c', hpre, hsite, hlater⟩ := statementList_visits j sl spre s spost id hsplit hu _ _ _ hrun'
+    have hft : c.fileTrace = [ws.root] := hpre.2
+    have hlive : LiveInv c := hpre.1.inv (LiveInv.new ws)
+    refine ⟨c, t, c', hft, hlive, hsite, hlater, fun S hS p h1 h2 => ?_⟩
+    exact use_goes_to_declaration_live hw hr0 id c c' t ws.root [] hft name ⟨ws.root, se.1, se.2⟩
+      (identOf_of ws.root id name se hiv hir) hne S hS hlive hsite hlater p h1 h2
+
+
+/-- the `j`-th body item of the `i`-th root statement is `T x = id;` of a `class` / `def`: the
+identifier, its (non-empty) text and its range - an executable form of the static hypotheses of
+`use_goes_to_declaration_root` -/
+def rootUse (ws : Workspace) (i j : Nat) : Option (PTree × String × (Nat × Nat)) :=
+  match (Ast.sourceFileCast (ws.tree ws.root)).bind Ast.sourceFileStatementList with
+  | none => none
+  | some sl =>
+    match (Ast.statementListStatements sl)[i]? with
+    | none => none
+    | some s =>
+      match stmtUseId s j with
+      | none => none
+      | some id =>
+        match Ast.identifierValue id, Ast.identifierRange id with
+        | some name, some se => if name ≠ "" then some (id, name, se) else none
+        | _, _ => none
+
+theorem use_goes_to_declaration_rootB {ws : Workspace} (hw : WsGood ws) {res : Index.IndexResult}
+    (hr : Index.index ws = .ok res) (i j : Nat) (id : PTree) (name : String) (se : Nat × Nat)
+    (h : rootUse ws i j = some (id, name, se)) :
+    ∃ c t c', c.fileTrace = [ws.root] ∧ LiveInv c ∧
+      (Index.indexIdentifierValue id).run c = .ok (t, c') ∧ SmLater c'.symbolMap res.symbolMap ∧
+      ∀ S, Tg.C13.resolveName c name = some S → ∀ p, se.1 ≤ p → p < se.2 →
+        gotoDefinitionExec (Analysis.new ws) ws.root p = .ok (some (symbolDefineLoc res.symbolMap S).toLoc) ∧
+        referencesExec (Analysis.new ws) ws.root p =
+          .ok (some (refsOf res.symbolMap.ops.toList (c.symbolMap.gidOf S))) ∧
+        (⟨ws.root, se.1, se.2⟩ : Loc) ∈ refsOf res.symbolMap.ops.toList (c.symbolMap.gidOf S) := by
+  unfold rootUse at h
+  split at h
+  · cases h
+  · rename_i sl hsl
+    split at h
+    · cases h
+    · rename_i s hs
+      split at h
+      · cases h
+      · rename_i id' hid
+        split at h
+        · rename_i name' se' hv hrg
+          split at h
+          · rename_i hne
+            cases h
+            cases hsf : Ast.sourceFileCast (ws.tree ws.root) with
+            | none => rw [hsf] at hsl; cases hsl
+            | some sf =>
+              rw [hsf] at hsl
+              obtain ⟨spre, spost, hsplit⟩ := split_of_getElem? _ _ _ hs
+              exact use_goes_to_declaration_root hw hr sf sl hsf hsl spre s spost hsplit id (stmtUseId_sound hid)
+                name se hv hrg hne
+          · cases h
+        · cases h
+
+/-- non-vacuity: `def d { int f = 1; int g = f; }` - the second body item of the first statement is a
+use of `f` at 27..28; the workspace is good and its index run succeeds, so the theorem applies -/
+def uInput : List Char := "def d { int f = 1; int g = f; }".toList
+
+def uTree : Tree :=
+  match Grammar.parse uInput with
+  | .ok r => r.tree
+  | _ => .node .SourceFile []
+
+theorem uTree_shape : shapeCheck (PTree.ofTree uTree) = true := by decide +kernel
+
+theorem u_wsGood : WsGood (wsOfTree uTree) := by
+  have hid : uTree.idOK := by
+    unfold uTree
+    split
+    · rename_i r hr; exact parse_idOK hr
+    · simp
+  refine ⟨⟨(wsOfTree_wf uTree_shape).1, (wsOfTree_wf uTree_shape).2.1⟩, ?_, ?_⟩
+  · intro g
+    unfold Workspace.tree
+    cases g with
+    | zero => simpa [wsOfTree] using idsNE_ofTree hid
+    | succ g => simpa [wsOfTree] using defaultTree_idsNE
+  · intro g
+    unfold Workspace.tree
+    cases g with
+    | zero => simpa [wsOfTree] using idsPlain_ofTree hid
+    | succ g => simpa [wsOfTree] using defaultTree_idsPlain
+
+example : ∃ res id, Index.index (wsOfTree uTree) = .ok res ∧ rootUse (wsOfTree uTree) 0 1 = some (id, "f", (27, 28)) ∧
+    ∃ c t c', c.fileTrace = [0] ∧ LiveInv c ∧ (Index.indexIdentifierValue id).run c = .ok (t, c') ∧
+      SmLater c'.symbolMap res.symbolMap := by
+  obtain ⟨res, hres⟩ := C03.index_never_panics_of_ready u_wsGood.ready
+  have hk : ((rootUse (wsOfTree uTree) 0 1).map fun x => x.2) = some ("f", (27, 28)) := by decide +kernel
+  cases hu : rootUse (wsOfTree uTree) 0 1 with
+  | none => rw [hu] at hk; cases hk
+  | some x =>
+    obtain ⟨id, name, se⟩ := x
+    rw [hu] at hk
+    simp only [Option.map_some, Option.some.injEq, Prod.mk.injEq] at hk
+    obtain ⟨rfl, rfl⟩ := hk
+    obtain ⟨c, t, c', h1, h2, h3, h4, _⟩ := use_goes_to_declaration_rootB u_wsGood hres 0 1 id "f" (27, 28) hu
+    exact ⟨res, id, hres, rfl, c, t, c', h1, h2, h3, h4⟩
+
+
+end live
 
 end Tg.C05
